@@ -138,7 +138,8 @@ func (e EnumSchema[S, T]) ValidateType(data T) error {
 }
 
 func (e EnumSchema[S, T]) SerializeType(data T) (any, error) {
-	return data, e.Validate(data)
+	// The serialized form is of type S (a plain string for a typed string enum), exactly as Serialize returns it.
+	return e.Serialize(data)
 }
 
 func (e EnumSchema[S, T]) asType(d any) (S, T, error) {
